@@ -119,6 +119,60 @@ def rand_def(rng, *, nstates=None, ntrans=None, provs=("sm",), dense=0.5, coro=0
             "evstyle": "param", "evlist": used}
 
 
+VALUE_SCHEMES = ["id", "int0", "negint", "emptystr", "enum", "tuple", "bool", "mixed"]
+_ENUMS = ["A", "B", "C", "D", "E", "F"]
+
+
+def value_for(scheme, k, rng):
+    """Tagged state value number k of a scheme (harness.decode_value turns it into the Python value); k = 0 is the
+    falsy one where the scheme has one."""
+    if scheme == "id":
+        return None
+    if scheme == "int0":
+        return {"t": "int", "v": k}
+    if scheme == "negint":
+        return {"t": "int", "v": k - 2}
+    if scheme == "emptystr":
+        return {"t": "str", "v": "" if k == 0 else f"v{k}"}
+    if scheme == "enum":
+        return {"t": "enum", "v": _ENUMS[k]}
+    if scheme == "tuple":
+        return {"t": "tuple", "v": [] if k == 0 else [k, 0]}
+    if scheme == "bool":
+        return {"t": "bool", "v": False} if k == 0 else {"t": "bool", "v": True} if k == 1 else {"t": "int", "v": k}
+    return rng.choice([{"t": "int", "v": k}, {"t": "str", "v": "" if k == 0 else f"m{k}"},
+                       {"t": "tuple", "v": [k]}, {"t": "enum", "v": _ENUMS[k]}])
+
+
+def assign_values(rng, d, scheme=None, same_name_p=0.0):
+    """Give the states of d values of one scheme (the falsy value lands on a random state) and, with probability
+    same_name_p, one shared display name."""
+    scheme = scheme or rng.choice(VALUE_SCHEMES)
+    order = list(range(len(d["states"])))
+    rng.shuffle(order)
+    for s, k in zip(d["states"], order):
+        s["value"] = value_for(scheme, k, rng)
+    if rng.random() < same_name_p:
+        for s in d["states"]:
+            if rng.random() < 0.7:
+                s["name"] = "Same name"
+    return scheme
+
+
+def rename_states(d, prefix):
+    """s0, s1, ... -> <prefix>0, <prefix>1, ... everywhere in definition d."""
+    m = {s["id"]: prefix + s["id"][1:] for s in d["states"]}
+    for s in d["states"]:
+        s["id"] = m[s["id"]]
+    for t in d["trans"]:
+        t["src"], t["tgt"] = m[t["src"]], m[t["tgt"]]
+    d["initial"] = m[d["initial"]]
+    for cb in d["cbs"]:
+        if cb["okind"] == "S":
+            cb["owner"] = m[cb["owner"]]
+    return d
+
+
 def rand_gv(rng):
     return {g: rng.random() < 0.6 for g in GNAMES}
 
